@@ -164,7 +164,7 @@ def rule_depth_units(ctx):
                         passes = True
     ctx.check(passes, "uci::Uci::go:max-depth-from-limits", "Uci::go hands a value derived from limits.depth to the search thread as max_depth", g.where(0),
               bad_what="Uci::go does not pass limits.depth to the search as its iteration bound")
-    ctx.floor("uses of the depth limit", n_reads, 2)
+    ctx.floor("uses of the depth limit", n_reads, 1)   # the loop bound; a pass-through conversion of it may or may not be there
 
 
 def rule_sequence(ctx):
@@ -663,7 +663,7 @@ def rule_line_atomic(ctx):
 
 RULES = [("line-atomic", rule_line_atomic), ("depth-units", rule_depth_units), ("sequence", rule_sequence), ("pv-legal", rule_pv_legal), ("score-src", rule_score_src), ("move-text", rule_move_text), ("info-syntax", rule_info_syntax)]
 # "a principal variation that is a sequence of legal moves" rests on the legality filter
-RULES += engine.premise_rules("c01", ["filter", "probe", "square-arith"])
+RULES += engine.movegen_premises()
 # the reported score / move of an iteration is what its completed root search recorded
 RULES += engine.premise_rules("c11", ["root-result"])
 # "a search limited to depth N": the N the loop is bounded by is the N the GUI sent
